@@ -21,7 +21,8 @@ Record wherec := { w_left : string; w_phrase : string; w_right : string }.
 Inductive sentence :=
 | SChoice (c : choice)                                                    (* Every c [X] can <verb> [card] a d [Y] [for each e]. *)
 | SDef (subj label newpred : string) (body : list clause)                 (* A c X is <newpred> when cl1 [and also cl2 ...]. *)
-| SCons (required : bool) (whenpart main : list clause) (wh : option wherec).  (* It is R that [when W then] M [, where X ph Y]. *)
+| SCons (required : bool) (whenpart main : list clause) (wh : option wherec)   (* It is R that [when W then] M [, where X ph Y]. *)
+| SOneOf (label : string) (vals : list Z) (x : sentence).                      (* <definition or constraint>, where L is one of v1, v2. *)
 
 Record spec := { concepts : list concept; sentences : list sentence }.
 
@@ -96,7 +97,16 @@ Definition where_lit (w : wherec) : list blit :=
   | Some op => match op_symbol op with Some sym => [BCmp sym (TVar (w_left w)) (TVar (w_right w))] | None => [] end
   | None => [] end.
 
-Definition compile_sentence (s : spec) (x : sentence) : list nrule :=
+(* "where L is one of v1, v2": one copy of the rule per value, with L = v appended to the body *)
+Definition add_eq (l : string) (v : Z) (r : nrule) : nrule :=
+  let lit := BCmp "=" (TVar l) (TConst (show_Z v)) in
+  match r with
+  | NRule h b => NRule h (b ++ [lit])%list
+  | NCons b => NCons (b ++ [lit])%list
+  | NChoice lb ub h c b => NChoice lb ub h c (b ++ [lit])%list
+  | other => other end.
+
+Fixpoint compile_sentence (s : spec) (x : sentence) : list nrule :=
   match x with
   | SChoice c => [compile_choice s c]
   | SDef subj label newpred body =>
@@ -104,6 +114,7 @@ Definition compile_sentence (s : spec) (x : sentence) : list nrule :=
   | SCons required whenpart main wh =>
       [NCons (dedup_keep_last (flat_map (clause_lits false) whenpart ++ flat_map (clause_lits required) main)
               ++ match wh with Some w => where_lit w | None => [] end)%list]
+  | SOneOf l vals y => flat_map (fun v => map (add_eq l v) (compile_sentence s y)) vals
   end.
 
 Definition compile (s : spec) : list nrule := (flat_map compile_concept (concepts s) ++ flat_map (compile_sentence s) (sentences s))%list.
@@ -217,7 +228,8 @@ Definition where_holds (sg : subst) (w : option wherec) : bool :=
               | _, _, _ => false end
   end.
 
-Definition r_sentence (s : spec) (I : interp) (x : sentence) : bool :=
+(* ok: an extra condition on the binding ("where L is one of ..."): the sentence speaks only of the bindings that meet it *)
+Fixpoint r_sentence_ok (s : spec) (I : interp) (ok : subst -> bool) (x : sentence) : bool :=
   match x with
   | SChoice c =>
       (* every qualifying subject (and for-each object) picks a number of admissible objects within the bounds *)
@@ -230,25 +242,31 @@ Definition r_sentence (s : spec) (I : interp) (x : sentence) : bool :=
   | SDef subj label newpred body =>
       (* the derived property holds exactly of the subjects for which some binding makes all conditions true *)
       forallb (fun x0 => Bool.eqb (holds I (atom_text newpred [x0]))
-                                  (existsb (fun sg => String.eqb (lookup sg label) x0 && forallb (clause_holds I sg false) body)
+                                  (existsb (fun sg => ok sg && String.eqb (lookup sg label) x0 && forallb (clause_holds I sg false) body)
                                            (typed_bindings s (clause_labels body))))
               (dom_of s subj)
   | SCons required whenpart main wh =>
       (* prohibited: no binding makes everything true; required: no binding makes the when-part true and the main part false *)
-      negb (existsb (fun sg => forallb (clause_holds I sg false) whenpart && forallb (clause_holds I sg required) main && where_holds sg wh)
+      negb (existsb (fun sg => ok sg && forallb (clause_holds I sg false) whenpart && forallb (clause_holds I sg required) main && where_holds sg wh)
                     (typed_bindings s (clause_labels (whenpart ++ main))))
+  | SOneOf l vals y =>
+      r_sentence_ok s I (fun sg => ok sg && existsb (fun v => String.eqb (lookup sg l) (show_Z v)) vals) y
   end.
+Definition r_sentence (s : spec) (I : interp) (x : sentence) : bool := r_sentence_ok s I (fun _ => true) x.
+
+Fixpoint base_sentence (x : sentence) : sentence := match x with SOneOf _ _ y => base_sentence y | _ => x end.
 
 (* which atoms may occur at all: concept values, admissible instances of chosen relations, derived properties of subjects *)
 Definition admissible (s : spec) (a : gatom) : bool :=
   existsb (fun c => existsb (fun v => String.eqb a (atom_text (c_name c) [v])) (dom_terms (c_dom c))) (concepts s) ||
-  existsb (fun x => match x with
+  existsb (fun x => match base_sentence x with
                     | SChoice c =>
                         let fes := match ch_foreach c with Some e => map (fun z => [z]) (dom_of s e) | None => [[]] end in
                         existsb (fun fe => existsb (fun x0 => existsb (fun y => String.eqb a (atom_text (verb_pred (ch_verb c)) (fe ++ [x0; y])%list))
                                                                      (dom_of s (ch_obj c))) (dom_of s (ch_subj c))) fes
                     | SDef subj _ newpred _ => existsb (fun x0 => String.eqb a (atom_text newpred [x0])) (dom_of s subj)
-                    | SCons _ _ _ _ => false end) (sentences s).
+                    | SCons _ _ _ _ => false
+                    | SOneOf _ _ _ => false end) (sentences s).
 
 Definition reading (s : spec) (I : interp) : bool :=
   r_domains s I && forallb (admissible s) I && forallb (r_sentence s I) (sentences s).
